@@ -1393,6 +1393,11 @@ func (p *Parser) parseFormatStringOperator() (token.Token, string, string, error
 
 	formatted, err := p.fonts.FormatText(textToken.Literal, maxLineLength, cursorOverlapWidth, fontID, numLines)
 	if err != nil && p.enableEnvironmentErrors {
+		if fontIdToken.LineNumber == 0 {
+			// The font id was not written in this format() call (it came from the
+			// default font option), so report the error at the text instead.
+			fontIdToken = textToken
+		}
 		return token.Token{}, "", "", NewParseError(fontIdToken, err.Error())
 	}
 	return textToken, formatted, stringType, nil
